@@ -545,8 +545,9 @@ def check(run):
         ex, ey = lap_oracle(c, c["x"]), lap_oracle(c, c["y"])
         for (l, io, got, exp) in ((lx, iox, Lx, ex), (ly, ioy, Ly, ey)):
             if len(got) != len(exp) or any(not close(g, float(e)) for g, e in zip(got, exp)):
-                run.violation("atimes:stencil", "atimes is not the documented Laplacian stencil: got %s expected %s [case: %s]"
-                              % (got[:9], [float(e) for e in exp[:9]], l[:400]), {"kind": "unit", "case": l, "impl": io})
+                badi = [k for k, (g, e) in enumerate(zip(got, exp)) if not close(g, float(e))][:6]
+                run.violation("atimes:stencil", "atimes is not the documented Laplacian stencil at flat index(es) %s: got %s expected %s [case: %s]"
+                              % (badi, [got[k] for k in badi], [float(exp[k]) for k in badi], l[:400]), {"kind": "unit", "case": l, "impl": io})
         if len(Lx) == len(c["x"]) and len(Ly) == len(c["y"]):
             xAy = sum(fr(a) * fr(b) for a, b in zip(c["x"], Ly))
             Axy = sum(fr(a) * fr(b) for a, b in zip(Lx, c["y"]))
